@@ -230,6 +230,20 @@ def build(inst, name="verif"):
             jobs[j] = tmp.jobs[pos]
         del tmp
         return JobShopInstance(jobs, name=name)
+    if nj >= 2 and (sum(map(len, inst["durations"])) * 3 + nj * 5
+                    + int(sum(map(sum, inst["durations"])))) % 7 == 0:
+        # third discarded layout: the same operations in the same flat order but with other job
+        # boundaries (the first two jobs were one job), so every operation id is already right
+        # while job ids / positions are not
+        merged_d = [list(inst["durations"][0]) + list(inst["durations"][1])] + \
+            [list(j) for j in inst["durations"][2:]]
+        merged_m = [[list(m) for m in inst["machines"][0]] + [list(m) for m in inst["machines"][1]]] + \
+            [[list(m) for m in j] for j in inst["machines"][2:]]
+        tmp = JobShopInstance.from_matrices(merged_d, merged_m, name="discarded")
+        n0 = len(inst["durations"][0])
+        jobs = [tmp.jobs[0][:n0], tmp.jobs[0][n0:]] + [list(j) for j in tmp.jobs[1:]]
+        del tmp
+        return JobShopInstance(jobs, name=name)
     return JobShopInstance.from_matrices(
         [list(j) for j in inst["durations"]],
         [[list(m) for m in j] for j in inst["machines"]],
